@@ -145,6 +145,7 @@ def run_case(case, reports=False, keep_objects=False):
             args += ["--summary"]
         else:
             args += ["--no-summary"]
+        args += list(case.get("extra_args", []))
         if cfg["stop"]:
             args.append("--stop")
         if cfg["dry"]:
@@ -248,12 +249,16 @@ def run_case(case, reports=False, keep_objects=False):
         runner.hooks = {n: mk(n) for n in HOOKS}
         config.base_dir = os.getcwd()
         runner.formatters = make_formatters(config, config.outputs)
+        saved_cont = Scenario.continue_after_failed_step
+        Scenario.continue_after_failed_step = bool(cfg.get("cont", False))
         try:
             failed = runner.run()
         except BaseException as x:      # noqa -- recorded, judged by C01.crash / C12.contained
             escaped = type(x).__name__
             if os.environ.get("VERIF_DEBUG"):
                 traceback.print_exc(file=saved[1])
+        finally:
+            Scenario.continue_after_failed_step = saved_cont
     finally:
         sys.stdout, sys.stderr = saved
         root.handlers = saved_handlers
@@ -309,7 +314,7 @@ def run_case(case, reports=False, keep_objects=False):
     if reports:
         try:
             from . import reports as RP
-            row["reports"] = RP.project(outdir, REAL_OUT.getvalue(), R, feats, elid, config)
+            row["reports"] = RP.project(outdir, REAL_OUT.getvalue(), R, feats, elid, config, case=case, real_err=REAL_ERR.getvalue())
         finally:
             shutil.rmtree(outdir, ignore_errors=True)
     if keep_objects:
